@@ -64,7 +64,9 @@ AllNames(w) == w.names \cup UNION {w.sheets[i].names : i \in DOMAIN w.sheets}
 (* new_sheet / set_sheet_name refuse a name that any sheet already has *)
 AddSheetP(w, nm)     == IF NameUsed(w, nm) THEN w ELSE [w EXCEPT !.sheets = Append(@, NewSheet(nm))]
 RenameP(w, i, nm)    == IF NameUsed(w, nm) THEN w ELSE [w EXCEPT !.sheets[i].name = nm]
-RemoveSheetP(w, i)   == [w EXCEPT !.sheets = SubSeq(@, 1, i - 1) \o SubSeq(@, i + 1, Len(@))]
+(* remove_sheet keeps the active tab (0-based) inside the remaining sheets (since /repo cb0eeea) *)
+RemoveSheetP(w, i)   == [w EXCEPT !.sheets = SubSeq(@, 1, i - 1) \o SubSeq(@, i + 1, Len(@)),
+                                  !.active = IF @ >= Len(w.sheets) - 1 /\ Len(w.sheets) >= 2 THEN Len(w.sheets) - 2 ELSE @]
 SetStateP(w, i, st)  == [w EXCEPT !.sheets[i].state = st]
 SetActiveP(w, k)     == [w EXCEPT !.active = k]
 AddMergeP(w, i, rg)  == [w EXCEPT !.sheets[i].merges = @ \cup {rg}]
